@@ -183,6 +183,61 @@ fn sweep(w: &World, ctx: &mut Ctx) {
     if validated {
         ctx.goal("private-forging-procedure-validated");
     }
+    // ---- application data in a PublicMessage (RFC 9420 6.2: application messages MUST be
+    //      encrypted): correctly signed and MACed by a real member, still to be refused
+    for &v in &members {
+        let cs = cs_of(w, v);
+        let g = w.g(v);
+        let keys = g.verif_epoch_keys();
+        let Ok(ctx_bytes) = g.context().mls_encode_to_vec() else { continue };
+        let mut content = vec![];
+        put_vbytes(&mut content, g.group_id());
+        content.extend_from_slice(&g.current_epoch().to_be_bytes());
+        content.push(1);
+        content.extend_from_slice(&w.leaf_of(v).to_be_bytes());
+        put_vbytes(&mut content, b"");
+        content.push(1); // content type application
+        put_vbytes(&mut content, b"application data in the clear");
+        let mut tbs = vec![0u8, 1, 0, 1]; // mls10, wire format public message
+        tbs.extend_from_slice(&content);
+        tbs.extend_from_slice(&ctx_bytes);
+        let mut sign_content = vec![];
+        put_vbytes(&mut sign_content, b"MLS 1.0 FramedContentTBS");
+        put_vbytes(&mut sign_content, &tbs);
+        let Ok(signature) = cs.sign(&w.parties[v].signer, &sign_content) else { continue };
+        let mut auth = vec![];
+        put_vbytes(&mut auth, &signature);
+        let mut tbm = tbs.clone();
+        tbm.extend_from_slice(&auth);
+        let tag = Suite(w.cfg.suite).hmac(&keys.membership_key, &tbm);
+        let mut out = vec![0u8, 1, 0, 1];
+        out.extend_from_slice(&content);
+        out.extend_from_slice(&auth);
+        put_vbytes(&mut out, &tag);
+        let Ok(m) = MlsMessage::mls_decode(&mut &*out) else {
+            ctx.outcome("public-application-message:undecodable");
+            ctx.goal("public-application-message");
+            continue;
+        };
+        for &r in &members {
+            if r == v {
+                continue;
+            }
+            ctx.eval();
+            ctx.cur_trail = vec![format!("application data in a PublicMessage, signed and MACed by {}, delivered to {}", w.parties[v].name, w.parties[r].name)];
+            match deliver(w, r, &m) {
+                Ok(Ok(_)) => ctx.violation("unencrypted-application-message-accepted", format!("{} accepted application data that arrived as a PublicMessage", w.parties[r].name)),
+                Ok(Err(e)) => {
+                    ctx.outcome(format!("public-application-message:refused:{e}"));
+                    ctx.goal("public-application-message");
+                }
+                Err(_) => {
+                    let (loc, msg, _) = take_panic();
+                    ctx.violation(format!("panic|public-application-message|{loc}"), msg);
+                }
+            }
+        }
+    }
     // ---- padding (RFC 9420 6.3.1): zero padding of any length is fine, any non-zero byte in
     //      it makes the message malformed -- even though signature and AEAD are right
     if let (Some(&v), Some(&helper)) = (members.first(), members.get(1)) {
